@@ -196,7 +196,7 @@ func mvals(truth int64) []mval {
 	v := func(name string, x int64) mval { return mval{name, ref.AppendLong(nil, x)} }
 	return []mval{
 		v("0", 0), v("1", 1), v("-1", -1), v("2", 2), v("-2", -2), v("true+1", truth+1), v("true-1", truth-1), v("-true", -truth),
-		v("2^31-1", math.MaxInt32), v("2^31", math.MaxInt32+1), v("2^32", 1<<32), v("2^40", 1<<40), v("-2^40", -(1 << 40)), v("2^62", 1<<62), v("maxint64", math.MaxInt64), v("minint64", math.MinInt64), v("minint64+1", math.MinInt64+1),
+		v("2^21", 1<<21), v("-2^21", -(1<<21)), v("2^22", 1<<22), v("2^31-1", math.MaxInt32), v("2^31", math.MaxInt32+1), v("2^32", 1<<32), v("2^40", 1<<40), v("-2^40", -(1 << 40)), v("2^62", 1<<62), v("maxint64", math.MaxInt64), v("minint64", math.MinInt64), v("minint64+1", math.MinInt64+1),
 		{"10-byte-max-varint", []byte{0xff, 0xff, 0xff, 0xff, 0xff, 0xff, 0xff, 0xff, 0xff, 0x01}},
 		{"11-byte-overflowing-varint", []byte{0xff, 0xff, 0xff, 0xff, 0xff, 0xff, 0xff, 0xff, 0xff, 0xff, 0x01}},
 		{"truncated-varint", []byte{0x80}},
@@ -325,6 +325,21 @@ func codecTasks(tier string) []task {
 							m[i] = nb
 							cc.offer(c, fmt.Sprintf("byte-repl%d", ri), m)
 							n++
+						}
+					}
+					// a block's count and byte size mutated together (each alone is often clamped by the other)
+					for i := 0; i+1 < len(ann); i++ {
+						a, b := ann[i], ann[i+1]
+						if a.Role != "count" || b.Role != "bsize" {
+							continue
+						}
+						for _, ma := range mvals(a.Val) {
+							for _, mb := range mvals(b.Val) {
+								x := splice(enc, b.Off, b.Len, mb.enc)
+								x = splice(x, a.Off, a.Len, ma.enc)
+								cc.offer(c, "count="+ma.name+"&bsize="+mb.name, x)
+								n++
+							}
 						}
 					}
 					if tier == "thorough" && len(ann) <= 6 {
